@@ -70,4 +70,8 @@ static int split(char *line,char **tok,int max){
   }
   return n;
 }
+/* a library call that never returns ends the process after VERIF_CASE_TIMEOUT seconds (default 300): the batch runner blames the case
+   whose header was printed last and carries on with the next one */
+#include <unistd.h>
+static void case_watchdog(void){ const char *t=getenv("VERIF_CASE_TIMEOUT"); alarm(t?atoi(t):300); }
 #endif
